@@ -48,7 +48,10 @@ def make_result(seedt):
     cross = bool(rng.random() < 0.55)
     N = int(rng.integers(120, 4000))
     x = gen.record(rng, N, str(rng.choice(["white", "ar1", "walk", "sine+noise"])))
-    data = np.vstack([x, gen.second_channel(rng, x, "mixed")]) if cross else x
+    second = gen.second_channel(rng, x, "mixed")
+    if cross and rng.random() < 0.12:
+        second = np.zeros(N)            # a dead second channel: Hxy = 0 exactly at every bin
+    data = np.vstack([x, second]) if cross else x
     fs = float(rng.choice([1.0, 2.0, 250.0]))
     kw = dict(order=int(rng.choice([-1, 0, 1, 2])), scheduler=str(rng.choice(gen.SCHEDS)),
               backend=str(rng.choice(["numba", "numpy"])))
